@@ -1,0 +1,16 @@
+//go:build verif
+
+package readline
+
+import (
+	"io"
+
+	"github.com/reeflective/readline/internal/core"
+)
+
+// VerifSetStdin replaces the reader from which the shell reads its keys.
+// It only exists in builds made with the `verif` build tag, and is used
+// by the external verification harness to control terminal input.
+func VerifSetStdin(r io.ReadCloser) {
+	core.Stdin = r
+}
